@@ -9,7 +9,7 @@ def jobs(tier):
     strata.append(dict(name="S-shape/permute-seed0", ns=[2, 3], pin={}, params=dict(K_m=0, K_r=0, max_shuffles=2, seed=0.0)))
     strata.append(dict(name="S-shape/permute-scrambled-input", ns=[2, 3, 4], pin={4: 4}, params=dict(K_m=0, K_r=0, max_shuffles=2, scramble=True, seed=0.5)))
     if t:
-        strata.append(dict(name="S-shape/permute5", ns=[5], pin={5: 8}, params=dict(K_m=0, K_r=0, max_shuffles=1)))
+        strata.append(dict(name="S-shape/permute5", ns=[5], pin={5: 8}, params=dict(K_m=0, K_r=0, max_shuffles=2, real_rng=False)))
         strata.append(dict(name="S-elem4/permute", ns=[3], pin={3: 3}, params=dict(K_m=1, K_r=0, alphabet=SIGMA_T4, max_shuffles=2)))
     return shape_strata("harness.pipeline", "c16", tier, quick=strata, thorough=strata, max_seconds=3000 if t else 240)
 
@@ -18,7 +18,7 @@ def main(tier):
     t = tier == "thorough"
     return run_check(
         "C16", tier, jobs(tier),
-        bounds={"atoms": "all labelled graphs on n <= 4 atoms (thorough: n = 5 with one shuffle)", "shuffle": "every outcome of random.shuffle (all n! permutations, chosen by the solver) for the first shuffle and for each retry up to depth %d; deeper retries are cut and counted" % (3 if t else 2),
+        bounds={"atoms": "all labelled graphs on n <= 4 atoms (thorough: n = 5 with one retry)", "shuffle": "every outcome of random.shuffle (all n! permutations, chosen by the solver) for the first shuffle and for each retry up to depth %d; deeper retries are cut and counted" % (3 if t else 2),
                 "data": "unique tag, symbolic charge, symbolic bond types, <= 1 symbolic mass label", "seeds": "0.25, 0.5 and the boundary 0.0", "inputs": "graphs whose numbering equals their listing order, and graphs with two adjacent labels exchanged (nx.relabel_nodes)"},
         assumptions=STD_ASSUME + ["RNG contract: random.seed(s) followed by the same calls yields the same shuffles; 'same seed, same result' is discharged through this contract (seed is called with the given seed before the first shuffle and nothing else of `random` is used), not by executing the Mersenne Twister"],
         stubs=["tucan.graph_utils.random replaced by a stub whose shuffle applies a solver-chosen permutation and whose seed records its argument"],
